@@ -214,6 +214,7 @@ class EvalMixin:
         raise VCError("compare %s on %s,%s" % (type(op).__name__, a.ty, b.ty))
 
     def contains(self, st, cont, x, node):
+        cont = self.unbox(st, cont)
         ty = cont.ty
         if ty == Display:
             return z3.Or([self.eq(x, e, st) for e in cont.t] + [z3.BoolVal(False)])
@@ -240,10 +241,17 @@ class EvalMixin:
             inner = SV(v.ty.t, T.opt_val(v.ty, v.t), cls=v.cls)
             if not self.spec:
                 st.assume(z3.Not(T.opt_is_none(v.ty, v.t)))
-            return inner
+            return self.unbox(st, inner)
         if v.ty == T.NoneT and not self.spec:
             self.oblige(st, z3.BoolVal(False), what, node)
             raise VCError("attribute of None constant")
+        return self.unbox(st, v)
+
+    def unbox(self, st, v):
+        if isinstance(v.ty, T.Obj) and R.SCHEMAS[v.ty.family].box:
+            fam = v.ty.family
+            inner = SV(R.SCHEMAS[fam].fields["val"], self.hread(st, fam, "val", v.t), box=(fam, v.t))
+            return inner
         return v
 
     def ev_Attribute(self, node, st):
@@ -277,10 +285,41 @@ class EvalMixin:
         sch = R.SCHEMAS[obj.ty.family]
         if obj.cls is not None: return [(obj.cls, z3.BoolVal(True))]
         tag = self.hread(st, obj.ty.family, "__class__", obj.t)
-        return [(c, tag == i) for i, c in enumerate(sch.classes)]
+        cands = [(c, tag == i) for i, c in enumerate(sch.classes)]
+        return [(c, cond) for c, cond in cands if self.maybe(st, cond)]
+
+    def maybe(self, st, cond):
+        """False only if cond is certainly inconsistent with the quantifier-free part of the path condition."""
+        sol = z3.Solver(); sol.set("timeout", 1000)
+        for f in st.pc:
+            if not _has_quant(f): sol.add(f)
+        sol.add(cond)
+        return sol.check() != z3.unsat
 
     def obj_attr(self, st, obj, attr, node):
         """property getter (inlined from the real source) or bound method, by dynamic class."""
+        sch = R.SCHEMAS[obj.ty.family]
+        virt = getattr(sch, "virtual", {})
+        if attr in virt and obj.cls is None:
+            yield st, SV(PyFunc, ("bound", virt[attr], obj)); return
+        if attr in sch.funfields:
+            prev = []
+            tmp = st.fork(); tmp.env = {"self": obj}
+            for cond, meth in sch.funfields[attr]:
+                cnd = self.spec_eval(cond, tmp, None)
+                s2 = st.fork(); s2.assume(z3.And([z3.Not(p) for p in prev] + [cnd]))
+                prev.append(cnd)
+                sol = z3.Solver(); sol.set("timeout", 3000)
+                for f in s2.pc: sol.add(f)
+                if sol.check() == z3.unsat: continue
+                found = None
+                for cq, ccond in self.classes_of(s2, obj):
+                    mm = X.find_method(*cq.split(":"), meth)
+                    if mm is not None:
+                        s3 = s2.fork(); s3.assume(ccond)
+                        yield s3, SV(PyFunc, ("bound", "%s:%s.%s" % (mm[0], mm[1], meth), SV(obj.ty, obj.t, cls=cq)))
+            self.note_assumption("function-valued attribute %s.%s dispatches as declared in the schema (established by the constructor)" % (obj.ty.family, attr))
+            return
         cands = self.classes_of(st, obj)
         missing = []
         for cq, cond in cands:
@@ -363,3 +402,18 @@ class EvalMixin:
             v = SV(ty.v, z3.Select(T.dict_map(ty, base.t), k))
             self.assume_wf(st, v); return v
         raise VCError("subscript on %s (line %s)" % (ty, getattr(node, "lineno", "?")))
+
+_hq_cache = {}
+def _has_quant(f):
+    k = f.get_id()
+    if k in _hq_cache: return _hq_cache[k]
+    r = False
+    stack = [f]; seen = set()
+    while stack:
+        e = stack.pop()
+        if e.get_id() in seen: continue
+        seen.add(e.get_id())
+        if z3.is_quantifier(e): r = True; break
+        stack.extend(e.children())
+    _hq_cache[k] = r
+    return r
